@@ -34,6 +34,17 @@ def _bounds(facts, X, lens, lo, hi_plus):
     return lower, upper
 
 
+def _helper_calls(prog, f):
+    """calls to functions of the package that are not known to be free of effects (a helper may do the work)"""
+    out = []
+    for x in walk_own(f.node):
+        if isinstance(x, ast.Call):
+            c = prog.callee(x, f)
+            if c is not None and c != (f.module.name, f.qual) and not prog.pure_call(x, f):
+                out.append(x)
+    return out
+
+
 def r_edit(prog, tier):
     obs = []
     # ---- delete_terminal renumbers exactly the tokens to the right
@@ -45,7 +56,7 @@ def r_edit(prog, tier):
     why = 'no `-= 1` on token numbers in a form this rule models'
     if not decs and not any(isinstance(x, (ast.Assign, ast.AugAssign)) and ".data['num']" in unparse(
             x.targets[0] if isinstance(x, ast.Assign) else x.target) for x in walk_own(f.node)) \
-            and not prog.opaque_calls(f, f.params[:1]):
+            and not prog.opaque_calls(f, f.params[:1]) and not _helper_calls(prog, f):
         ok, why = False, 'token numbers are never changed: the tokens to the right keep their old numbers'
     if len(decs) == 1:
         n = decs[0]
